@@ -52,29 +52,29 @@ func shortKey(k string) string {
 }
 
 type Prog struct {
-	fset   *token.FileSet
-	prog   *ssa.Program
-	pkgs   map[string]*ssa.Package
-	ppkgs  map[string]*packages.Package
-	funcs  map[string]*ssa.Function
-	fnFile map[string]string // key -> base file name
-	db     *SpecDB
-	repo   string
-	tags   string
+	fset       *token.FileSet
+	prog       *ssa.Program
+	pkgs       map[string]*ssa.Package
+	ppkgs      map[string]*packages.Package
+	funcs      map[string]*ssa.Function
+	fnFile     map[string]string // key -> base file name
+	db         *SpecDB
+	repo       string
+	tags       string
 	namePrefix string // prefix of obligation names for alternative tag sets
 
-	typeTags   map[string]int
-	tagTypes   []types.Type
-	globalIDs  map[*ssa.Global]int
-	rtypeOf    map[*ssa.Global]types.Type // reflect.Type globals -> denoted type
-	rtypeStruct map[*ssa.Global]bool      // the global is a one-field struct wrapping the reflect.Type (tensor.Dtype)
-	rtypeIDs   map[string]int             // denoted type string -> id
-	rtypeNames map[int]string
-	loops      map[*ssa.Function][]*Loop
-	mu         sync.Mutex
-	gen        sync.Mutex
-	schemaMiss map[string]bool
-	funcIDs    map[*ssa.Function]int
+	typeTags    map[string]int
+	tagTypes    []types.Type
+	globalIDs   map[*ssa.Global]int
+	rtypeOf     map[*ssa.Global]types.Type // reflect.Type globals -> denoted type
+	rtypeStruct map[*ssa.Global]bool       // the global is a one-field struct wrapping the reflect.Type (tensor.Dtype)
+	rtypeIDs    map[string]int             // denoted type string -> id
+	rtypeNames  map[int]string
+	loops       map[*ssa.Function][]*Loop
+	mu          sync.Mutex
+	gen         sync.Mutex
+	schemaMiss  map[string]bool
+	funcIDs     map[*ssa.Function]int
 }
 
 func funcKey(fn *ssa.Function) string {
